@@ -134,6 +134,8 @@ class SimNode:
         return c
 
     def feed(self, conn, data, owner):
+        if not data:
+            return            # an empty send carries no byte: it owns nothing of what follows
         conn.inbuf += data
         conn.owners.append([owner, len(data)])
         while not conn.peer_closed:
